@@ -26,7 +26,7 @@ BOUNDS = {
 }
 ASSUMPTIONS = ['reals-based obligations: arithmetic is exact', 'IEEE obligation: inputs finite, round-to-nearest-even', 'math.log(x, b): any function with b^n <= x <=> log >= n and b^n < x <=> log > n for integer n in the bound (exact logarithm contract); math.ceil exact']
 OUT_OF_CLAIM = ['NaN / infinite parameters', 'float rounding inside the jitter expression', 'accuracy of libm log beyond the stated contract', 'counts above the unrolling bound for the exact-sequence clause (the inductive IEEE step has no count bound)']
-STUBS = ['random.random -> fresh real in [0,1)', 'math.log / math.ceil -> uninterpreted + contract']
+STUBS = ['IEEE obligations: cvc5 1.4 Python wheel through vf/cvc5_run.py (falls back to the 1.0 binary)', 'random.random -> fresh real in [0,1)', 'math.log / math.ceil -> uninterpreted + contract']
 
 
 def _z3():
@@ -334,6 +334,19 @@ def replay_default_count(start, stop, factor):
 
 
 # ------------------------------------------------------------------ IEEE-754 inductive step (cvc5)
+def _fp_model(text):
+    """read (get-value ...) output of cvc5 for Float64 variables into Python floats"""
+    import re
+    import struct
+    out = {}
+    for name, sign, ex, man in re.findall(r'\((\w+) \(fp #b([01]) #b([01]{11}) #b([01]{52})\)\)', text):
+        out[name] = struct.unpack('>d', int(sign + ex + man, 2).to_bytes(8, 'big'))[0]
+    for name, sg, kind in re.findall(r'\((\w+) \(_ ([+-])(zero|oo) 11 53\)\)', text):
+        if kind == 'zero':
+            out[name] = -0.0 if sg == '-' else 0.0
+    return out or None
+
+
 def ieee_step(pins, timeout):
     z3 = _z3()
     from vf import pysym
@@ -352,6 +365,8 @@ def ieee_step(pins, timeout):
     queries = 0
     t0 = time.time()
     checked = 0
+    undecided = []
+    per_query = max(20.0, timeout / 4.0)        # a path obligation that does not finish must not starve the others
     for idx, p in enumerate(paths):
         goals = []
         if p.exc:
@@ -374,9 +389,13 @@ def ieee_step(pins, timeout):
         s.add(z3.Or(*goals))
         fname = os.path.join(work, 'c15_fp_%d_%d.smt2' % (os.getpid(), idx))
         with open(fname, 'w') as fh:
-            fh.write('(set-logic QF_FP)\n' + s.to_smt2().replace('(set-info :status unknown)', ''))
+            fh.write('(set-option :produce-models true)\n(set-logic QF_FP)\n' + s.to_smt2().replace('(set-info :status unknown)', '')
+                     + '\n(get-value (start stop factor))\n')
         try:
-            out = subprocess.run(['cvc5', '--tlimit=%d' % int(timeout * 1000), fname], capture_output=True, text=True, timeout=timeout + 30).stdout.strip()
+            import sys
+            raw = subprocess.run([sys.executable, '-m', 'vf.cvc5_run', fname, str(per_query)], capture_output=True, text=True, timeout=per_query + 30).stdout
+            engine = raw.split('\n', 1)[0].replace('ENGINE ', '') if raw.startswith('ENGINE') else 'cvc5'
+            out = raw.split('\n', 1)[1].strip() if raw.startswith('ENGINE') and '\n' in raw else raw.strip()
         except subprocess.TimeoutExpired:
             out = 'timeout'
         finally:
@@ -387,14 +406,27 @@ def ieee_step(pins, timeout):
         queries += 1
         checked += 1
         if out.split()[:1] == ['sat']:
-            return {'verdict': 'inconclusive', 'message': 'cvc5 found an IEEE-754 counterexample candidate on path %d (no model extraction implemented: reported as inconclusive, rerun with --produce-models to inspect)' % idx,
-                    'paths': len(paths)}
-        if out.split()[:1] != ['unsat'] or '(error' in out:
-            return {'verdict': 'inconclusive', 'message': 'cvc5: %r' % out[:200], 'paths': len(paths)}
+            vals = _fp_model(out)
+            if vals is None or not all(k in vals for k in ('start', 'stop', 'factor')):
+                return {'verdict': 'inconclusive', 'message': 'cvc5 found an IEEE-754 counterexample candidate on path %d but its model could not be read: %r' % (idx, out[:200]),
+                        'paths': len(paths)}
+            F = fractions.Fraction
+            return {'verdict': 'counterexample', 'message': 'backoff_iter in IEEE-754 doubles: start=%r stop=%r factor=%r (path %d)' % (vals['start'], vals['stop'], vals['factor'], idx),
+                    'call_args': '%r, %r, %r, 4' % (str(F(vals['start'])), str(F(vals['stop'])), str(F(vals['factor']))),
+                    'replay_function': 'replay_backoff', 'paths': len(paths), 'solver_queries': queries}
+        # the trailing (get-value ...) legitimately fails after an unsat answer; any OTHER error line makes the answer inconclusive
+        rest = out.replace('(error "Cannot get value unless after a SAT or UNKNOWN response.")', '').replace(
+            '(error "cannot get value unless after a SAT or UNKNOWN response.")', '')
+        if out.split()[:1] != ['unsat'] or '(error' in rest:
+            # undecided: remember it, but go on - a later path obligation may still yield a counterexample
+            undecided.append('path %d: cvc5: %r' % (idx, out[:120]))
+            continue
+    if undecided:
+        return {'verdict': 'inconclusive', 'message': '; '.join(undecided)[:400], 'paths': len(paths)}
     if checked == 0:
         return {'verdict': 'error', 'message': 'no path reached the second yield'}
     return {'verdict': 'confirmed', 'paths': len(paths), 'completed': len(paths), 'witness': checked,
-            'samples': [{'logic': 'QF_FP (cvc5 %s)' % 'binary', 'paths': len(paths), 'queries': queries}], 'solver_queries': queries, 'solver_s': round(time.time() - t0, 2)}
+            'samples': [{'logic': 'QF_FP (%s)' % engine, 'paths': len(paths), 'queries': queries}], 'solver_queries': queries, 'solver_s': round(time.time() - t0, 2)}
 
 
 def obligations(tier):
